@@ -184,6 +184,9 @@ class Env(object):
             a = [self.path(p, o, loops) for p in s["after"]]
             vsc.solve_order(b if len(b) > 1 or s.get("aslist") else b[0],
                             a if len(a) > 1 or s.get("aslist") else a[0])
+        elif t == "raise":
+            # user code inside a constraint / with-block body fails here
+            raise Fault("injected in a generated body")
         else:
             raise Exception("unknown stmt " + t)
 
